@@ -717,6 +717,7 @@ def main(argv=None):
     nA, nB, nC, nD = (200, 60, 40, 100) if quick else (6000, 1500, 500, 3000)
     only = None
     cases_a = []
+    seeds_b, seeds_c, sched_cases = [], [], []
     if ck.replay_path:
         with open(ck.replay_path) as f:
             case = json.load(f).get('case') or {}
@@ -724,6 +725,12 @@ def main(argv=None):
         nA = nB = nC = nD = 0
         if only == 'A':
             cases_a = [case['ops']]
+        elif only == 'B':
+            seeds_b = [case['seed']]
+        elif only == 'C':
+            seeds_c = [case['seed']]
+        elif only == 'D' and not case.get('plain'):
+            sched_cases = [case]
     # ---- A
     corpus = [
         ['reset mapping', 'store 0000000000000003', 'finish', 'newoid', 'newoid', 'newoid', 'newoid'],
@@ -779,14 +786,13 @@ def main(argv=None):
             elif a != b:
                 ck.mismatch('newOidBytes %s: impl %s model %s' % (hex8(v), a, b), dict(section='A', value=v))
     # ---- B
-    for i in range(nB):
-        crng = random.Random(rng.randrange(10 ** 12))
-        seed_state = crng.getstate()
-        bad, log, nt = run_demo_case(crng, ck.tmp, i)
+    seeds_b += [rng.randrange(10 ** 12) for _ in range(nB)]
+    for i, cseed in enumerate(seeds_b):
+        bad, log, nt = run_demo_case(random.Random(cseed), ck.tmp, i)
         ck.count('B:cases')
         ck.case(['B', log], nt, sample=dict(section='B', log=log[:10]) if i == 0 else None)
         if bad:
-            ck.violation('C20:demo-new-oid-collision', bad, dict(section='B', log=log))
+            ck.violation('C20:demo-new-oid-collision', bad, dict(section='B', seed=cseed, log=log[-12:]))
     if only in (None, 'probe'):
         bad = probe_uncreated_reissue(ck.tmp)
         ck.count('probe:uncreated-reissue')
@@ -795,28 +801,30 @@ def main(argv=None):
         if bad:
             ck.violation('C20:new-oid-uncreated-reissued', bad, dict(section='probe'))
     # ---- C
-    for i in range(nC):
-        crng = random.Random(rng.randrange(10 ** 12))
-        bad, info, nt = run_conn_case(crng, ck.tmp, i)
+    seeds_c += [rng.randrange(10 ** 12) for _ in range(nC)]
+    for i, cseed in enumerate(seeds_c):
+        bad, info, nt = run_conn_case(random.Random(cseed), ck.tmp, i)
         ck.count('C:' + info['kind'])
         for s in info['steps']:
             ck.count('C:step:' + s)
         ck.case(['C', info], nt, sample=dict(section='C', **info) if i == 0 else None)
         if bad:
-            ck.violation('C20:connection-new-oid-collision', bad, dict(section='C', **info))
+            ck.violation('C20:connection-new-oid-collision', bad, dict(section='C', seed=cseed, **info))
     # ---- D
     steps_total = 0
     for i in range(nD):
-        kind = ['file', 'mapping', 'demo'][i % 3]
-        nthreads = rng.choice([2, 3, 4])
-        seed = rng.randrange(10 ** 9)
-        bad, info, steps = run_sched_case(rng, ck.tmp, i, kind, nthreads, rng.choice([2, 3, 5]), seed)
+        sched_cases.append(dict(kind=['file', 'mapping', 'demo'][i % 3], threads=rng.choice([2, 3, 4]),
+                                per=rng.choice([2, 3, 5]), seed=rng.randrange(10 ** 9), schedule=None))
+    for i, sc in enumerate(sched_cases):
+        kind = sc['kind']
+        bad, info, steps = run_sched_case(rng, ck.tmp, i, kind, sc['threads'], sc['per'], sc['seed'],
+                                          schedule=sc.get('schedule'))
         steps_total += steps
         ck.count('D:schedules:' + kind)
         ck.case(['D', info['kind'], info['threads'], info['per'], info['schedule']], True, None)
         if bad:
             ck.violation('C20:%s-concurrent-new-oid' % kind, bad, dict(section='D', **info))
-    if only in (None, 'D'):
+    if only is None or (only == 'D' and not sched_cases):
         for kind in ('file', 'mapping', 'demo'):
             bad = run_plain_threads(kind, ck.tmp, per=300 if quick else 3000)
             ck.count('D:plain-threads:' + kind)
